@@ -447,3 +447,59 @@ func (f *Func) definedBy(body ast.Node, obj types.Object) (rhs ast.Expr, idx int
 	})
 	return
 }
+
+// provenanceText renders e together with everything its local variables are computed from: the right-hand
+// sides of all their assignments and the conditions those assignments are control-dependent on (a value
+// chosen by `if v { x = 1 } else { x = 0 }` comes from v), transitively to a small depth. Used where a rule
+// asks "is this value derived from that one" and helper substitution may have put locals in between.
+func (f *Func) provenanceText(e ast.Expr) string {
+	var sb strings.Builder
+	seen := map[types.Object]bool{}
+	var visit func(e ast.Expr, depth int)
+	visit = func(e ast.Expr, depth int) {
+		sb.WriteString(exprKey(e))
+		sb.WriteString(" ")
+		if depth > 4 {
+			return
+		}
+		ast.Inspect(e, func(y ast.Node) bool {
+			id, ok := y.(*ast.Ident)
+			if !ok {
+				return true
+			}
+			obj, isVar := f.ObjOf(id).(*types.Var)
+			if !isVar || obj.IsField() || seen[obj] || obj.Pkg() == nil || obj.Parent() == obj.Pkg().Scope() {
+				return true
+			}
+			seen[obj] = true
+			for _, as := range f.assignsTo(f.Decl.Body, obj) {
+				for i, l := range as.Lhs {
+					if lid, ok := l.(*ast.Ident); ok && f.ObjOf(lid) == types.Object(obj) {
+						if len(as.Rhs) == len(as.Lhs) {
+							visit(as.Rhs[i], depth+1)
+						} else if len(as.Rhs) == 1 {
+							visit(as.Rhs[0], depth+1)
+						}
+					}
+				}
+				// conditions the assignment depends on
+				ast.Inspect(f.Decl.Body, func(z ast.Node) bool {
+					ifs, ok := z.(*ast.IfStmt)
+					if !ok {
+						return true
+					}
+					if ifs.Pos() <= as.Pos() && as.End() <= ifs.End() && !(ifs.Cond.Pos() <= as.Pos() && as.End() <= ifs.Cond.End()) {
+						// only ifs whose branches are small value selections, not the function's big guards
+						if ifs.End()-ifs.Pos() < 200 {
+							visit(ifs.Cond, depth+1)
+						}
+					}
+					return true
+				})
+			}
+			return true
+		})
+	}
+	visit(e, 0)
+	return sb.String()
+}
